@@ -2,8 +2,10 @@ package fs
 
 import (
 	"archive/tar"
+	"io"
 	"os"
 	"strings"
+	"time"
 
 	vm "github.com/pojntfx/stfs/internal/verifmodel"
 	"github.com/pojntfx/stfs/pkg/config"
@@ -173,4 +175,111 @@ func Harness_C01_rebuild_equals_live() {
 	vm.Assert("C01.locks_free", v.Env.LocksFree())
 	vm.Cover("C01.call_succeeded", err == nil)
 	vm.Cover("C01.call_failed", err != nil)
+}
+
+// ---- batched archive-level calls with caller-supplied file information ----
+
+type c01Info struct {
+	name string
+	size int64
+	mode os.FileMode
+}
+
+func (i c01Info) Name() string       { return i.name }
+func (i c01Info) Size() int64        { return i.size }
+func (i c01Info) Mode() os.FileMode  { return i.mode }
+func (i c01Info) ModTime() time.Time { return time.Time{} }
+func (i c01Info) IsDir() bool        { return i.mode.IsDir() }
+func (i c01Info) Sys() interface{}   { return nil }
+
+type c01Src struct {
+	data []byte
+	pos  int
+}
+
+func (s *c01Src) Read(p []byte) (int, error) {
+	if s.pos >= len(s.data) {
+		return 0, io.EOF
+	}
+	n := copy(p, s.data[s.pos:])
+	s.pos += n
+	return n, nil
+}
+func (s *c01Src) Seek(off int64, whence int) (int64, error) {
+	if whence == io.SeekStart {
+		s.pos = int(off)
+	}
+	return int64(s.pos), nil
+}
+func (s *c01Src) Close() error { return nil }
+
+// Harness_C01_archive_level_calls: Operations.Archive / Update with file information that does not come
+// from the index (as `stfs operation archive|update` passes it from os.Stat), batched with one or two
+// members; afterwards a rebuilt index shows what the live one shows.
+func Harness_C01_archive_level_calls() {
+	v := verifNewFS(config.PipeConfig{}, false, true)
+	v.rootOnly()
+	v.Env.AddEntry("/d", tar.TypeDir, 0, false, "")
+	v.Env.AddEntry("/d/g", tar.TypeReg, 3, false, "")
+	size := vm.Concretize(vm.Int("size", 0, 3))
+	content := make([]byte, size)
+	for i := range content {
+		content[i] = vm.Byte("c", "xy")
+	}
+	members := []config.FileConfig{}
+	mk := func(path string, sz int) config.FileConfig {
+		data := content[:sz]
+		return config.FileConfig{
+			GetFile: func() (io.ReadSeekCloser, error) { return &c01Src{data: data}, nil },
+			Info:    c01Info{name: path, size: int64(sz), mode: 0o640},
+			Path:    path,
+		}
+	}
+	kind := vm.Choice("call", 4)
+	switch kind {
+	case 0, 1: // update of an existing file: content (replace) or metadata only
+		members = append(members, mk("/d/g", size))
+	case 2: // archive of a new file
+		members = append(members, mk("/d/n", size))
+	case 3: // batched archive: two members in one call
+		members = append(members, mk("/d/n", size), mk("/d/m", 1%(size+1)))
+	}
+	i := 0
+	getSrc := func() (config.FileConfig, error) {
+		if i >= len(members) {
+			return config.FileConfig{}, io.EOF
+		}
+		i++
+		return members[i-1], nil
+	}
+	var err error
+	switch kind {
+	case 0:
+		_, err = v.Env.WriteOps.Update(getSrc, config.CompressionLevelFastestKey, true, false)
+	case 1:
+		_, err = v.Env.WriteOps.Update(getSrc, config.CompressionLevelFastestKey, false, false)
+	default:
+		_, err = v.Env.WriteOps.Archive(getSrc, config.CompressionLevelFastestKey, false, false)
+	}
+	vm.Assert("C01.archive_level_call_ok", err == nil)
+	r, rerr := c01Rebuild(v)
+	vm.Assert("C01.archive_level_rebuild_succeeds", rerr == nil)
+	if rerr != nil {
+		return
+	}
+	rm := config.MetadataConfig{Metadata: r}
+	for _, u := range []string{"/", "/d", "/d/g", "/d/n", "/d/m"} {
+		vm.Assert("C01.archive_level_same_view_after_rebuild", c01SameView(v.Env.Metadata, rm, u))
+	}
+	for _, a := range v.Env.P.VerifRows() {
+		if a.Deleted == 1 || a.Typeflag != int64(tar.TypeReg) {
+			continue
+		}
+		for _, b := range r.VerifRows() {
+			if b.Deleted != 1 && c01Norm(b.Name) == c01Norm(a.Name) {
+				vm.Assert("C01.archive_level_same_position_after_rebuild", a.Record == b.Record && a.Block == b.Block)
+			}
+		}
+	}
+	vm.Assert("C01.archive_level_locks_free", v.Env.LocksFree())
 }
